@@ -163,3 +163,102 @@ func deferredCloses(fn *ssa.Function) []ssa.Value {
 	}
 	return out
 }
+
+// litFields returns the fields stored into a composite literal (`&T{...}` / `T{...}`) on the segment.
+func litFields(s *Seg, v ssa.Value) map[string]ssa.Value {
+	v = s.Resolve(v)
+	out := map[string]ssa.Value{}
+	for _, e := range s.Events {
+		if e.Kind != EvStore {
+			continue
+		}
+		if fa, ok := e.Addr.(*ssa.FieldAddr); ok && fa.X == v {
+			out[fieldName(fa.X.Type(), fa.Field)] = e.Val
+		}
+	}
+	return out
+}
+
+// derivesFromParam reports whether an address is reached from parameter prm through field /
+// index address computations and pointer loads (i.e. a write through it mutates state reachable
+// from the receiver).
+func derivesFromParam(v ssa.Value, prm ssa.Value, d int) bool {
+	if d > 10 || v == nil {
+		return false
+	}
+	if v == prm {
+		return true
+	}
+	switch t := v.(type) {
+	case *ssa.FieldAddr:
+		return derivesFromParam(t.X, prm, d+1)
+	case *ssa.IndexAddr:
+		return derivesFromParam(t.X, prm, d+1)
+	case *ssa.UnOp:
+		if t.Op == token.MUL {
+			return derivesFromParam(t.X, prm, d+1)
+		}
+	case *ssa.Slice:
+		return derivesFromParam(t.X, prm, d+1)
+	case *ssa.ChangeType:
+		return derivesFromParam(t.X, prm, d+1)
+	case *ssa.Phi:
+		for _, e := range t.Edges {
+			if derivesFromParam(e, prm, d+1) {
+				return true
+			}
+		}
+	case *ssa.FreeVar:
+		if b := BindingOf(t); b != nil {
+			return derivesFromParam(b, prm, d+1)
+		}
+	case *ssa.Alloc:
+		// a local cell that only ever holds the parameter (`new *T (g); *cell = g`)
+		n, all := 0, true
+		for _, ref := range *t.Referrers() {
+			if st, ok := ref.(*ssa.Store); ok && st.Addr == ssa.Value(t) {
+				n++
+				if !derivesFromParam(st.Val, prm, d+1) {
+					all = false
+				}
+			}
+		}
+		return n > 0 && all
+	}
+	return false
+}
+
+// writesThrough lists the stores/map updates/copy-into in fn (and its closures) whose target is
+// reachable from parameter prm.
+func writesThrough(p *Prog, fn *ssa.Function, prm ssa.Value) []string {
+	var out []string
+	var visit func(f *ssa.Function)
+	visit = func(f *ssa.Function) {
+		for _, b := range f.Blocks {
+			for _, in := range b.Instrs {
+				switch t := in.(type) {
+				case *ssa.Store:
+					if _, isAlloc := t.Addr.(*ssa.Alloc); isAlloc {
+						continue
+					}
+					if derivesFromParam(t.Addr, prm, 0) {
+						out = append(out, "store to "+(*Seg)(nil).term(t.Addr, 0)+" at "+p.Pos(t.Pos()))
+					}
+				case *ssa.MapUpdate:
+					if derivesFromParam(t.Map, prm, 0) {
+						out = append(out, "map update at "+p.Pos(t.Pos()))
+					}
+				case *ssa.Call:
+					if b, ok := t.Call.Value.(*ssa.Builtin); ok && b.Name() == "copy" && derivesFromParam(t.Call.Args[0], prm, 0) {
+						out = append(out, "copy into receiver state at "+p.Pos(t.Pos()))
+					}
+				}
+			}
+		}
+		for _, a := range f.AnonFuncs {
+			visit(a)
+		}
+	}
+	visit(fn)
+	return out
+}
